@@ -3,6 +3,7 @@
 #include "common.hpp"
 #include "lincheck.hpp"
 #include "reclaimers.hpp"
+#include "markalg.hpp"
 #include <memory>
 #include <new>
 #include <stdexcept>
@@ -28,6 +29,7 @@ enum {
   OP_SELFASSIGN = 14, // a=slot c=0 copy / 1 move
   OP_RESET2 = 15,   // a=slot              reset twice
   OP_REMARK = 16,   // a=cell              flip the mark bit of the cell, same object (CAS from the current value)
+  OP_MARKALG = 17,  // a=width selector b=seed   marked_ptr / concurrent_ptr round trips for one mark width (data path, markalg.hpp)
   OP_NOTE_LEFT = 40, // teardown note: a=#retired not destroyed
 };
 
@@ -455,6 +457,12 @@ struct World : IWorld {
           op_end(ok, val_of(nv), val_of(MPtr(tmp)));
           break;
         }
+        case OP_MARKALG: {
+          op_begin(op.kind, a, b, 0, 0);
+          markalg::run<R>(a, (uint64_t)op.b);
+          op_end(1);
+          break;
+        }
         case OP_REGION_ENTER: {
           op_begin(op.kind, 0, 0, 0, lf);
           if (t.regions < 2) {
@@ -566,8 +574,8 @@ public:
   const char* config_name(int i) const override { return cfgs[i].tr.name; }
   const char* op_name(int k) const override {
     static const char* n[] = {"?", "publish", "read", "read_if_equal", "copy", "move", "copy_ctor", "move_ctor", "swap", "reset",
-                              "unlink", "region_enter", "region_leave", "ptr_ctor", "self_assign", "reset2", "remark"};
-    if (k >= 1 && k <= 16) return n[k];
+                              "unlink", "region_enter", "region_leave", "ptr_ctor", "self_assign", "reset2", "remark", "mark_algebra"};
+    if (k >= 1 && k <= 17) return n[k];
     if (k == OP_NOTE_LEFT) return "census";
     return "?";
   }
@@ -718,6 +726,11 @@ public:
       bool rh = plain && !tr.hp_like && g.rng.chance(30);
       for (int t = 0; t < nt; t++)
         gen_ops(g, p.threads[t], rh ? g.rng.range(6, maxops + 6) : g.rng.range(3, maxops), nslots, tr, false, c15, c02 && g.rng.chance(50), rh);
+    }
+    // C15: in a quarter of the runs one thread also runs the marked_ptr / concurrent_ptr round trips for one mark width
+    if (c15 && !p.threads.empty() && g.rng.chance(25)) {
+      auto& ops = p.threads[g.rng.below(p.threads.size())].ops;
+      ops.insert(ops.begin() + (long)g.rng.below(ops.size() + 1), Op{OP_MARKALG, (int64_t)g.rng.below(7), (int64_t)(g.rng.next() >> 8), 0});
     }
     g.opt.step_cap = g.tier ? 400000 : 150000;
   }
